@@ -28,3 +28,12 @@ claim("C12",
 claim("C15",
       "Theorems (Coq, no axioms) about the model's status/telemetry bookkeeping for every verbosity and state, and that an instrumented + adds exactly one hook site; the model is tied to the code by correspondence (status, count, tags) on generated programs x configurations, and the specification-side hook-site counter (extracted from Coq) is run on the implementation's own output trees for every case.",
       NOTE + "Known finding C15-compound-target-dup is excluded by a syntactic class.", TECH, "DESIGN.md section 5 (C15)")
+claim("C09",
+      "Theorems: base64-VLQ decode(encode) round trip for every integer and every segment; lookup on a sorted map is the greatest lower bound. The repository's real trailer is decoded with the extracted decoder and every identifier of the printed content (aligned with the output tree through swc's re-parse) is looked up with the extracted glb lookup and binary search: copied identifiers must map exactly to their original line/column, injected ones into the line span of their statement or block.",
+      NOTE + "partial: where mappings are emitted is swc's printer contract (exercised on every case, not proved); columns are UTF-16 units.", TECH, "DESIGN.md section 5 (C09)")
+claim("C10",
+      "Theorems: lookup in the chained map = lookup in the rewrite map then in the original map whenever every token resolves; in general the chained map is the composition restricted to resolving tokens; nothing is invented (all unbounded). On the code: the embedded map must equal `chain R O` computed by the extracted function from the rewrite map and the generated original map, for inline/external/missing/unreadable/bad/index/empty/duplicate comments, chaining and comments on/off; exactly one trailer; printed text never edited; literals that look like the comment intact.",
+      NOTE + "sourcemap crate (decoder, lookup_token, serializer incl. its duplicate-token elision) and base64 are trusted and exercised.", TECH, "DESIGN.md section 5 (C10)")
+claim("C11",
+      "Theorems: findEntry's binary search returns the greatest mapping at or before the position on every sorted list; the rewritten-maps cache, as a state machine over any history, holds exactly the map of the most recent rewrite (none if it was not modified); unknown files are the identity. On the code: rewritten throwing programs are run in Node through main.js's CacheRewriter and both prepareStackTrace paths, over rewrite histories; findEntry (JS) is compared with the extracted find_entry/lookup on random maps.",
+      NOTE + "partial: V8 call sites, eval origins and column conventions are exercised, not modelled; main.js runs against a stand-in native module replaying real results.", TECH, "DESIGN.md section 5 (C11)")
